@@ -285,7 +285,9 @@ def make_embed_unit(r, n, tag, up, arg, v):
     return Unit(tag, f"{var}:{kinds}", lines, v, decls=[decl])
 
 
-WRAPPERS = ["helper", "if", "lambda", "block"]
+# unithelper: the construct sits in a function that ends in a statement (assignment to a global) and so returns unit
+# (the VM leaves such a function through `ret0`, not `ret`)
+WRAPPERS = ["helper", "if", "lambda", "block", "unithelper"]
 
 
 class Prog:
@@ -318,6 +320,10 @@ class Prog:
                 if w == "helper":
                     helpers.append(f"fn w{n}(u{n}){{\n" + "".join(ind + l + "\n" for l in lines) + ind + res + "\n}\n")
                     lines, res = [f"let r{n} = w{n}(u{n})"], f"r{n}"
+                elif w == "unithelper":
+                    glob.append(f"let ga{n} = 0.0")
+                    helpers.append(f"fn wu{n}(u{n}){{\n" + "".join(ind + l + "\n" for l in lines) + ind + f"ga{n} = {res}\n}}\n")
+                    lines, res = [f"wu{n}(u{n})"], f"ga{n}"
                 elif w == "if":
                     lines = [f"let i{n} = if (now > 3.0) {{"] + [ind + l for l in lines] + [ind + res, "} else {", ind + "0.0", "}"]
                     res = f"i{n}"
@@ -373,6 +379,10 @@ def make_case(seed, idx, profile, avoid=()):
                 continue
             # `{ G = e …` at the start of a block expression is read as a record literal
             if w == "block" and u.variant in ("global-reassign", "global-replace"):
+                continue
+            if w == "unithelper" and ("helper" in ws or "unithelper" in ws):
+                continue
+            if w == "helper" and "unithelper" in ws:
                 continue
             if w not in ws:
                 ws.append(w)
